@@ -245,6 +245,25 @@ class Driver(object):
         return out
 
     def batch(self, requests, max_rounds=400):
+        """Resolve requests in waves of doubling size: answers learnt for the
+        early requests are cached by the driver and spare the later ones most
+        of their rounds."""
+        n = len(requests)
+        answers = [None] * n
+        stats = {'env_queries': 0, 'rounds': 0}
+        start, size = 0, 1
+        while start < n:
+            idx = list(range(start, min(n, start + size)))
+            a, st = self._batch([requests[i] for i in idx], max_rounds)
+            for i, x in zip(idx, a):
+                answers[i] = x
+            stats['env_queries'] += st['env_queries']
+            stats['rounds'] += st['rounds']
+            start += size
+            size = min(size * 2, 4000)
+        return answers, stats
+
+    def _batch(self, requests, max_rounds=400):
         n = len(requests)
         answers = [None] * n
         pending = list(range(n))
